@@ -2,9 +2,9 @@ SPECIFICATION Spec
 CONSTANTS
   Pods = {1, 2}
   Reqs = {1, 2, 3}
-  Slots = {1, 2}
+  Slots = {1}
   Addrs = {1, 2, 3}
-  Cap = 2
+  Cap = 3
   Batch = 1
   MaxIdle = 0
   FixCollector = TRUE
@@ -12,6 +12,6 @@ CONSTANTS
   FixKeep = TRUE
   FixDangling = TRUE
   FixABA = TRUE
-  DriftOn = FALSE
+  DriftOn = TRUE
 INVARIANTS Exclusive NeverUnassignHeld NeverDeleteInUse HeldBacked QuotaAddr NoGhostOwner TrackedEqualsCloud
 CHECK_DEADLOCK FALSE
